@@ -145,7 +145,12 @@ pub fn worker_main(check: &dyn Check, tier: Tier, seed: u64) {
             let _ = writeln!(o, "BEGIN {}", case);
             let _ = o.flush();
         }
-        let report = check.run_case(tier, seed, case);
+        let t0 = Instant::now();
+        let mut report = check.run_case(tier, seed, case);
+        let ms = t0.elapsed().as_millis() as u64;
+        if ms > 10_000 {
+            report.count(&format!("slow_case_ms:{}", case), ms);
+        }
         let mut o = stdout.lock();
         let _ = writeln!(o, "RESULT {}", serde_json::to_string(&report).unwrap());
         let _ = o.flush();
